@@ -19,18 +19,23 @@ Once(body) == SBlock(<< SVar("q", Lit(N(0))),
 ForOnce(n, body) == SFor(SVarList(<<SVar(n, V), SVar("q", Lit(N(0)))>>), Bin("<", Id("q"), Lit(N(1))),
                          Asg("q", Bin("+", Id("q"), Lit(N(1)))), SBlock(body))
 
-(* every sequence of items of total size exactly n (a simple item has size 1, a compound 1 + its body), nesting <= d *)
+(* every sequence of items of total size exactly n (a simple item has size 1, a compound 1 + its body), nesting <= d;
+   built as SEQUENCES of statement sequences (TLC's union of large sets of large records is quadratic) *)
+Cross(A, B, F(_, _)) == FlattenSeq([i \in 1..Len(A) |-> [j \in 1..Len(B) |-> F(A[i], B[j])]])
+Map(A, F(_)) == [i \in 1..Len(A) |-> F(A[i])]
+SimpleS == SetToSeq(Simple)
 RECURSIVE SeqN(_, _, _)
 ItemN(s, d, inFun) ==
-   IF s = 1 THEN Simple \cup (IF inFun THEN {} ELSE {CallF})
-   ELSE IF d = 0 THEN {}
-   ELSE { SBlock(x) : x \in SeqN(s - 1, d - 1, inFun) }
-        \cup { ForOnce(nm, x) : nm \in Names2, x \in SeqN(s - 1, d - 1, inFun) }
-        \cup { Once(x) : x \in SeqN(s - 1, d - 1, inFun) }
-        \cup (IF inFun THEN {} ELSE { SFun("f", <<>>, x) : x \in SeqN(s - 1, d - 1, TRUE) })
+   IF s = 1 THEN SimpleS \o (IF inFun THEN <<>> ELSE <<CallF>>)
+   ELSE IF d = 0 THEN <<>>
+   ELSE LET inner == SeqN(s - 1, d - 1, inFun) IN
+        Map(inner, LAMBDA x : SBlock(x))
+        \o Cross(<<"a", "b">>, inner, LAMBDA nm, x : ForOnce(nm, x))
+        \o Map(inner, LAMBDA x : Once(x))
+        \o (IF inFun THEN <<>> ELSE Map(SeqN(s - 1, d - 1, TRUE), LAMBDA x : SFun("f", <<>>, x)))
 SeqN(n, d, inFun) ==
-   IF n = 0 THEN { <<>> }
-   ELSE UNION { { <<it>> \o r : it \in ItemN(s, d, inFun), r \in SeqN(n - s, d, inFun) } : s \in 1..n }
+   IF n = 0 THEN << <<>> >>
+   ELSE FlattenSeq([s \in 1..n |-> Cross(ItemN(s, d, inFun), SeqN(n - s, d, inFun), LAMBDA it, r : <<it>> \o r)])
 
 RECURSIVE NamesIn(_)
 NamesIn(t) == IF t.k = "none" THEN {}
@@ -66,10 +71,10 @@ RItem(s, i, d, inFun) ==
         ELSE IF r < 18 \/ inFun THEN Once(body)
         ELSE SFun("f", <<>>, RSeq(s, i * 31 + 7, 1 + RandInt(s, i + 2, 3), d - 1, TRUE))
 RSeq(s, i, n, d, inFun) == IF n = 0 THEN <<>> ELSE <<RItem(s, i, d, inFun)>> \o RSeq(s, i + 1009, n - 1, d, inFun)
-Randoms == { x \in { RSeq(SeedProp * 8192 + k, 1, 4 + RandInt(SeedProp, k, 4), 3, FALSE) : k \in 1..NRandom } : InDomainSeq(x, {}) }
+Randoms == SelectSeq([k \in 1..NRandom |-> RSeq(SeedProp * 8192 + k, 1, 4 + RandInt(SeedProp, k, 4), 3, FALSE)], LAMBDA x : InDomainSeq(x, {}))
 
-All == { x \in SeqN(Budget, MaxDepth, FALSE) : InDomainSeq(x, {}) } \cup Randoms
-Cases == SetToSeq(All)
+All == SelectSeq(SeqN(Budget, MaxDepth, FALSE), LAMBDA x : InDomainSeq(x, {})) \o Randoms
+Cases == All
 Programs == [i \in 1..Len(Cases) |-> TagV(LayoutProg(Cases[i], 1), 0)]
 FamProgOf(i) == Programs[i]
 Init == \E i \in 1..Len(Programs) : InitSem(i, <<>>, FALSE)
